@@ -55,7 +55,7 @@ def main():
     shutil.copy(demo, os.path.join(d, "demo.py"))
     head = sh("git -C /repo rev-parse --short HEAD").stdout.strip()
     json.dump({"id": new_id, "property": prop, "summary": m.get("summary"), "needs": m.get("needs"),
-               "files": m.get("files"), "round": 3 if out.endswith("out3") else 2,
+               "files": m.get("files"), "round": 4 if out.endswith("out4") else (3 if out.endswith("out3") else 2),
                "origin": "fresh sub-agent given only the property text (and one-line summaries of the earlier rounds' changes "
                          "to avoid) and a scratch worktree of /repo (nothing from /verif)",
                "confirmed": {"how": "harness/seed_confirm.py: scratch worktree %s at /repo main %s; git apply patch.diff; "
